@@ -34,7 +34,7 @@ fn install_hook() {
         // fault of whoever called std with bad arguments: walk the backtrace and attribute it to the
         // innermost frame that is neither std nor the panic machinery.
         if let Some((file, _)) = &mut l {
-            if file.starts_with("/rustc/") || file.starts_with("library/") {
+            if file.starts_with("/rustc/") || file.starts_with("library/") || file.contains("/library/core/") || file.contains("/library/std/") || file.contains("/library/alloc/") {
                 let bt = std::backtrace::Backtrace::force_capture().to_string();
                 if std_panic_caller_is_third_party(&bt) {
                     file.push_str(" [called from a registry crate]");
